@@ -543,11 +543,21 @@ def rule_breakers(draw):
             'define qq_r begin wait end repeat 2 begin {} end']))
         return (text + '\n' + where.format('return'),
                 'return outside a routine')
+    # a routine may reuse a macro's name for a parameter or a loop variable;
+    # that does not make the macro assignable afterwards
+    between = draw(st.sampled_from([
+        '', '', 'define qq_r with QQ begin wait end',
+        'define qq_r with a QQ begin assign QQ 1 end',
+        'define qq_r begin repeat with QQ from 1 to 2 begin wait end end',
+        'define qq_r begin repeat all as QQ begin wait end end',
+        'define qq_r begin repeat 2 with QQ cycle begin wait end end']))
     if kind == 'assign-macro':
-        return 'define QQ 5\n' + text + '\nassign QQ 6', 'assignment to a macro'
+        return ('define QQ 5\n' + text + '\n' + between + '\nassign QQ 6',
+                'assignment to a macro')
     if kind == 'redefine-macro':
-        return ('define QQ 5\n' + text + '\ndefine QQ ' + draw(
-            st.sampled_from(['6', '"s"', '5'])), 'macro defined twice')
+        return ('define QQ 5\n' + text + '\n' + between + '\ndefine QQ ' +
+                draw(st.sampled_from(['6', '"s"', '5'])),
+                'macro defined twice')
     if kind == 'undefined-name':
         use = draw(st.sampled_from(
             ['hue qq_undefined', 'assign v { 1 + qq_undefined }',
